@@ -178,6 +178,12 @@ V("C07", "lt-at-seam", "silent", "", "<= -> < at the continuous seam",
   (CA, "(sqrtqmu_v <= self.sqrtqmuA_v), _true_case, _false_case", "(sqrtqmu_v < self.sqrtqmuA_v), _true_case, _false_case"))
 V("C07", "algebraic-rewrite", "silent", "", "false case rewritten as 0.5*(q/a - a)",
   (CA, "teststat = (qmu - qmu_A) / (2 * self.sqrtqmuA_v)", "teststat = 0.5 * (qmu / self.sqrtqmuA_v - self.sqrtqmuA_v)"))
+V("C07", "band-clb-by-construction", "fire", "C07.R5", "explicit loop over the band with CLb taken as Phi(-N): wrong where the clipped distribution clips",
+  (CA, '        # Calling pvalues is easier then repeating the CLs calculation here\n        tb, _ = get_backend()\n        return list(\n            map(\n                list,\n                zip(\n                    *(\n                        self.pvalues(\n                            test_stat, sig_plus_bkg_distribution, bkg_only_distribution\n                        )\n                        for test_stat in [\n                            bkg_only_distribution.expected_value(n_sigma)\n                            for n_sigma in [2, 1, 0, -1, -2]\n                        ]\n                    )\n                ),\n            )\n        )\n', '        tb, _ = get_backend()\n        CLsb_exp, CLb_exp, CLs_exp = [], [], []\n        for n_sigma in [2, 1, 0, -1, -2]:\n            test_stat = bkg_only_distribution.expected_value(n_sigma)\n            CLsb = sig_plus_bkg_distribution.pvalue(test_stat)\n            CLb = tb.astensor(tb.normal_cdf(tb.astensor(-n_sigma)))\n            CLsb_exp.append(CLsb)\n            CLb_exp.append(CLb)\n            CLs_exp.append(tb.astensor(CLsb / CLb))\n        return [CLsb_exp, CLb_exp, CLs_exp]\n'))
+V("C07", "band-explicit-loop", "silent", "", "the band as an explicit loop with both tails from the distributions",
+  (CA, '        # Calling pvalues is easier then repeating the CLs calculation here\n        tb, _ = get_backend()\n        return list(\n            map(\n                list,\n                zip(\n                    *(\n                        self.pvalues(\n                            test_stat, sig_plus_bkg_distribution, bkg_only_distribution\n                        )\n                        for test_stat in [\n                            bkg_only_distribution.expected_value(n_sigma)\n                            for n_sigma in [2, 1, 0, -1, -2]\n                        ]\n                    )\n                ),\n            )\n        )\n', '        tb, _ = get_backend()\n        CLsb_exp, CLb_exp, CLs_exp = [], [], []\n        for n_sigma in [2, 1, 0, -1, -2]:\n            test_stat = bkg_only_distribution.expected_value(n_sigma)\n            CLsb = sig_plus_bkg_distribution.pvalue(test_stat)\n            CLb = bkg_only_distribution.pvalue(test_stat)\n            CLsb_exp.append(CLsb)\n            CLb_exp.append(CLb)\n            CLs_exp.append(tb.astensor(CLsb / CLb))\n        return [CLsb_exp, CLb_exp, CLs_exp]\n'))
+V("C07", "branch-by-muhat", "fire", "C07.R1", "qtilde branch chosen by the sign of the fitted POI instead of q vs qA",
+  (CA, "(sqrtqmu_v <= self.sqrtqmuA_v), _true_case, _false_case", "(muhatbhat[self.pdf.config.poi_index] > 0), _true_case, _false_case"))
 
 # ------------------------------------------------------------------ C08
 INF = "src/pyhf/infer/__init__.py"
